@@ -946,6 +946,11 @@ func genReplayTest(eng *Eng, ri *ReplayInfo, ms *ModelSession) (src string, err 
 			cls = append(cls, cl{label: label, code: code})
 		}()
 	}
+	// render the result types first: typeStr registers the packages they need as imports
+	var resTypes []string
+	for i := 0; i < sig.Results().Len(); i++ {
+		resTypes = append(resTypes, m.typeStr(sig.Results().At(i).Type()))
+	}
 	var sb strings.Builder
 	fmt.Fprintf(&sb, "package %s\n\nimport (\n\t\"encoding/json\"\n\t\"fmt\"\n\t\"math/big\"\n\t\"reflect\"\n\t\"testing\"\n", fn.Pkg.Pkg.Name())
 	var imps []string
@@ -967,7 +972,7 @@ func genReplayTest(eng *Eng, ri *ReplayInfo, ms *ModelSession) (src string, err 
 		sb.WriteString("\t" + d + "\n")
 	}
 	for i := 0; i < sig.Results().Len(); i++ {
-		fmt.Fprintf(&sb, "\tvar %s %s\n\t_ = %s\n", resNames[i], m.typeStr(sig.Results().At(i).Type()), resNames[i])
+		fmt.Fprintf(&sb, "\tvar %s %s\n\t_ = %s\n", resNames[i], resTypes[i], resNames[i])
 	}
 	for _, p := range pre {
 		sb.WriteString("\t" + p + "\n")
